@@ -73,11 +73,42 @@ LINK_FAULTS = (
     "bad-lcs", "bad-dcs", "bad-postamble", "bad-start",     # garbled frame: one framing byte wrong
     "bitflip",                                              # garbled frame: bit `bit` of byte `pos` inverted
     "extra-bytes",                                          # frame followed by junk in the same transfer
+    "surplus",                                              # *well formed* response frame (LEN, LCS, DCS right) whose
+                                                            # payload has `n` more octets than the command's layout
     "error-frame", "error-frame-7f", "error-frame@ack",     # error frame instead of response / instead of ACK
     "wrong-rsp-code", "wrong-direction",                    # D7 code+3 / D6 code+1
     "garbage", "garbage@ack",                               # bytes that are no frame
     "raw",                                                  # `frames`: the transfers the reads return, verbatim
 )
+
+SURPLUS_LENGTHS = (1, 2, 5)
+
+# the faults where the transport itself fails: errno values nfc.clf.transport.USB.write()/read() can raise
+# (ETIMEDOUT, ENODEV, EIO - see the `except libusb...` clauses there)
+IO_ERRNO = {"io-timeout": errno.ETIMEDOUT, "io-eio": errno.EIO, "io-enodev": errno.ENODEV}
+
+
+def surplus_octets(n):
+    return bytes((0xA5 + 17 * i) & 0xFF for i in range(n))
+
+
+def faults_hard():
+    """names of the host-link faults with a fault_phase()"""
+    return [f for f in LINK_FAULTS if fault_phase(f)]
+
+
+def fault_phase(name):
+    """'write' | 'ack' | 'rsp' for the faults where the transport itself raises IOError while the host command is
+    delivered or its answer fetched, i.e. where the harness *knows* that the host link is what failed:
+      write  transport.write() raised: the chip never saw the command (and does not execute it)
+      ack    transport.read() raised instead of returning the ACK frame (ETIMEDOUT = no ACK at all): the chip never
+             acknowledged the command (and the simulated chip does not execute it)
+      rsp    transport.read() raised after a correct ACK instead of returning the response frame: the chip never
+             answered
+    None for everything else (unexpected, garbled or cut frames are judged by the coarse clause only)."""
+    if name.split("@")[0] not in IO_ERRNO or "@" not in name:
+        return None
+    return {"write": "write", "ack": "ack", "rsp": "rsp"}.get(name.split("@")[1])
 
 
 # --------------------------------------------------------------------------------------------------------
@@ -435,11 +466,17 @@ class Port100Sim:
             self.cmdlog.append((code, payload))
         self._tick(0.0005)
         self.queue.clear()
-        if act is not None and act["kind"] == "link" and act["fault"].endswith("@write"):
+        if act is not None and act["kind"] == "link" and fault_phase(act["fault"]) == "write":
             self.fault_applied += 1
             self.last_response = None
-            err = {"io-timeout": errno.ETIMEDOUT, "io-eio": errno.EIO, "io-enodev": errno.ENODEV}[act["fault"].split("@")[0]]
-            raise IOError(err, os.strerror(err))
+            raise self._ioerror(act["fault"].split("@")[0])
+        if act is not None and act["kind"] == "link" and fault_phase(act["fault"]) == "ack":
+            # the command got lost on the way: no ACK, no execution, no response
+            self.fault_applied += 1
+            self.last_response = None
+            if act["fault"] != "io-timeout@ack":
+                self.queue.append(self._ioerror(act["fault"].split("@")[0]))
+            return
         if act is not None and act["kind"] == "rf_status" and code in RF_COMMANDS:
             self.fault_applied += 1
             rsp = self._rf_status_response(code, payload, act["word"])
@@ -470,20 +507,15 @@ class Port100Sim:
 
     @staticmethod
     def _ioerror(name):
-        err = {"io-timeout": errno.ETIMEDOUT, "io-eio": errno.EIO, "io-enodev": errno.ENODEV}[name]
-        return IOError(err, os.strerror(err))
+        return IOError(IO_ERRNO[name], os.strerror(IO_ERRNO[name]))
 
     def _link_fault(self, act, code, rsp, good):
         f = act["fault"]
         data = bytes((pf.DEVICE_TO_HOST, (code + 1) & 0xFF)) + bytes(rsp)
         if f == "raw":                     # the harness dictates the transfers verbatim
             return [bytes(x) for x in act["frames"]]
-        if f == "io-timeout@ack":
-            return []
         if f == "io-timeout@rsp":
             return [ACK]
-        if f in ("io-eio@ack", "io-enodev@ack"):
-            return [self._ioerror(f.split("@")[0])]
         if f in ("io-eio@rsp", "io-enodev@rsp"):
             return [ACK, self._ioerror(f.split("@")[0])]
         if f == "no-ack":
@@ -511,6 +543,8 @@ class Port100Sim:
             return [ACK, bytes(m)]
         if f == "extra-bytes":
             return [ACK, good + bytes(act.get("junk", b"\x55\xaa"))]
+        if f == "surplus":
+            return [ACK, pf.encode(data + surplus_octets(act["n"]))]
         if f == "error-frame":
             return [ACK, SHORT_ERROR_FRAME]
         if f == "error-frame-7f":
